@@ -4,8 +4,8 @@ Archives a confirmed sub-agent change under /verif/seeded/<PROP>-<N>/ (patch.dif
 import sys, os, shutil, json, re
 prop, n, dest, run, detected, cls = sys.argv[1:7]
 needs = " ".join(sys.argv[7:])
-src = "/tmp/seed/%s/out" % prop
-d = "/verif/seeded/%s-%s" % (prop, n)
+src = os.environ.get("SEEDROOT", "/tmp/seed") + "/%s/out" % prop
+d = "/verif/seeded/%s-%s" % (prop, os.environ.get("SEEDNAME", n))
 os.makedirs(d, exist_ok=True)
 shutil.copyfile("%s/change%s.diff" % (src, n), d + "/patch.diff")
 demo = "%s/demo%s_test.go" % (src, n)
